@@ -25,6 +25,9 @@ MODEL = "wsd"
 # --------------------------------------------------------------------------
 # case helpers
 # --------------------------------------------------------------------------
+L_REST = 200000     # search mode: byte b of the wsd_work_stealing_deque_t = 200000 + b (bytes registered otherwise keep their locs)
+
+
 def parse_case(case):
     v = [int(x) for x in case.split()]
     params = v[1:1 + v[0]]
@@ -79,6 +82,9 @@ def drained(prog):
 def monitor(case, tr, raw):
     if tr is None:
         return "implementation produced no trace: %s" % (raw or "")[:80]
+    # search mode (RT_CATCHALL=1): accesses to bytes of the object(s) that have no location of their own are
+    # scheduling points, not events of the protocol judged here
+    tr = [e for e in tr if e[1] < L_REST or e[2] in (909, 919)]
     params, progs = parse_case(case)
     nthreads = len(progs)
     for t in range(1, nthreads):
@@ -429,11 +435,12 @@ def search(ctx, exe):
         rng_ctx.cleanup()
     random.Random(ctx.seed + 5).shuffle(cases)
     cases = cases[:30000]
-    impl = core.run_sharded([exe], cases)
+    # RT_CATCHALL: every byte of the deque object is a scheduling point (fields the model does not know included)
+    impl = core.run_sharded(["env", "RT_CATCHALL=1", exe], cases)
     for c, line in zip(cases, impl):
         why = core.safe_monitor(monitor, c, core.parse_trace(line) if line is not None else None, line)
         if why:
-            core.report_violation(ctx, LABEL, c, why, line)
+            core.report_violation(ctx, LABEL + "+catchall", c, why, line)
             if len(ctx.violations) >= 3:
                 break
     if not ctx.violations:
@@ -468,6 +475,11 @@ def replay(ctx, payload):
     if not exe or not c:
         print("nothing to replay (no concrete case in this file)")
         return 2
+    if str(payload.get("harness", "")).endswith("+catchall"):
+        impl = core.run_sharded(["env", "RT_CATCHALL=1", exe], [c])[0]
+        why = core.safe_monitor(monitor, c, core.parse_trace(impl) if impl is not None else None, impl)
+        print("case:  %s\nimpl (every byte of the object a scheduling point):  %s\nmonitor: %s" % (c, impl, why or "ok"))
+        return 1 if why else 0
     impl = core.run_sharded([exe], [c])[0]
     mod = core.model_run(MODEL, [c])[0]
     why = monitor(c, core.parse_trace(impl), impl)
